@@ -24,7 +24,7 @@ Theorem C17_request_uri_client_bound_and_time_limited :
   exists k pr, key_of s uri = Some k /\ par (st s) k = Some pr /\
     cp = r_client pr /\ (now s <= r_at pr + cf_par_life cfg)%Z /\
     o_err (snd (authorize_core cfg (set_store s (delete_par (st s) k)) (r_cl pr)
-      {| az_client := r_client pr; az_redirect := r_redirect pr; az_scopes := r_rscopes pr; az_granted := az_granted a;
+      {| az_rtype := RCode; az_client := r_client pr; az_redirect := r_redirect pr; az_scopes := r_rscopes pr; az_granted := az_granted a;
          az_aud := r_raud pr; az_gaud := az_gaud a; az_subject := az_subject a;
          az_challenge := if String.eqb (r_challenge pr) "" then az_challenge a else r_challenge pr;
          az_method := if String.eqb (r_method pr) "" then az_method a else r_method pr |})) = "".
